@@ -264,3 +264,91 @@ Definition ico_n_vertices (order : nat) : Z := (10 * 4 ^ Z.of_nat order + 2)%Z. 
 Definition ico_tets (order : nat) : list tet :=
   let '(ts, st) := ico_topology order in
   map (fun '(a, b, c) => (a, b, c, ico_n_vertices order)) ts.     (* center_idx = len(vertices) *)
+
+(** ** make_triangular_icosphere / make_tetrahedral_sphere / _ellipsoid: the vertex
+    coordinates and potentials (binary64 run for the correspondence check) *)
+Section IcoVerts.
+  Context {F : Type} {O : Ops F}.
+  Local Open Scope ops_scope.
+
+  Definition ico_f : F := (one + sqrt (cst (5 # 1))) / cst (2 # 1).     (* f = (1 + 5 ** 0.5) / 2 *)
+  Definition icoord_val (c : icoord) : F :=
+    match c with IC0 => zero | IC1 => one | ICm1 => - one | ICf => ico_f | ICmf => - ico_f end.
+  Definition ico_base : list (V3 F) :=
+    map (fun '(x, y, z) => V (icoord_val x) (icoord_val y) (icoord_val z)) TetTables.ico_verts.
+
+  (** vertices[v] = 0.5 * (vertices[a] + vertices[b]), in creation order *)
+  Definition ico_add_mid (vs : list (V3 F)) (ab : Z * Z) : list (V3 F) :=
+    let pa := nth (Z.to_nat (fst ab)) vs vzero in
+    let pb := nth (Z.to_nat (snd ab)) vs vzero in
+    vs ++ [vscale half (vadd pa pb)].
+  Definition ico_raw_vertices (order : nat) : list (V3 F) :=
+    fold_left ico_add_mid (ic_created (snd (ico_topology order))) ico_base.
+
+  (** vertices /= 1.0 / radius * np.linalg.norm(vertices, axis=1)[:, np.newaxis]; vertices += center *)
+  Definition ico_normalize (radius : F) (c v : V3 F) : V3 F :=
+    let nrm := sqrt ((vx v * vx v + vy v * vy v) + vz v * vz v) in
+    vadd (vdivs v (one / radius * nrm)) c.
+  Definition icosphere_vertices (c : V3 F) (radius : F) (order : nat) : list (V3 F) :=
+    map (ico_normalize radius c) (ico_raw_vertices order).
+
+  Definition last_pot (n : nat) (p : F) : list F := repeat zero n ++ [p].   (* zeros; potentials[-1] = p *)
+
+  Definition sphere_mesh (radius : F) (order : nat) : mesh :=
+    let vs := icosphere_vertices vzero radius order in
+    (vs ++ [vzero], ico_tets order, last_pot (length vs) radius).
+
+  Definition ellipsoid_mesh (rx ry rz : F) (order : nat) : mesh :=
+    let vs := map (fun v => V (vx v * rx) (vy v * ry) (vz v * rz)) (icosphere_vertices vzero one order) in
+    (vs ++ [vzero], ico_tets order, last_pot (length vs) (fmin (fmin rx ry) rz)).   (* min(radii) *)
+End IcoVerts.
+
+(** ** make_tetrahedral_capsule.  [circ]: (sin theta_i, cos theta_i) for the circles of a cap,
+    [ring]: (cos phi_j, sin phi_j) for the vertices of a circle (inputs, computed by the harness
+    with the numpy calls of the code); n = length ring, n_circles_per_cap = length circ. *)
+Section Capsule.
+  Context {F : Type} {O : Ops F}.
+  Local Open Scope ops_scope.
+
+  Definition capsule_verts (radius height : F) (circ ring : list (F * F)) : list (V3 F) :=
+    let medial_top_z := half * height in
+    let top_z := medial_top_z + radius in
+    [V zero zero medial_top_z; V zero zero (- medial_top_z); V zero zero top_z; V zero zero (- top_z)]
+      ++ flat_map (fun '(s, c) =>
+                     let top_circle_z := radius * c + medial_top_z in
+                     flat_map (fun '(cp, sp) =>
+                                 let x := radius * s * cp in
+                                 let y := radius * s * sp in
+                                 [V x y top_circle_z; V x y (- top_circle_z)]) ring) circ.
+
+  (** ids: medial_top 0, medial_bottom 1, top 2, bottom 3, top_cap[k] = 4 + 2k, bottom_cap[k] = 5 + 2k *)
+  Definition katom_id (n ncap i j j1 : Z) (a : katom) : Z :=
+    let cap (is_top : bool) (k : Z) := (if is_top then 4 + 2 * k else 5 + 2 * k)%Z in
+    let jj (dj : nat) := match dj with 0%nat => j | _ => j1 end in
+    match a with
+    | KA_medial_top => 0 | KA_medial_bottom => 1 | KA_top => 2 | KA_bottom => 3
+    | KCap t di dj => cap t ((i + Z.of_nat di) * n + jj dj)
+    | KLast t dj => cap t ((ncap - 1) * n + jj dj)
+    | KRing t dj => cap t (jj dj)
+    end%Z.
+
+  Definition kelem_tets (n ncap i j j1 : Z) (e : kelem) : list tet :=
+    let id := katom_id n ncap i j j1 in
+    match e with
+    | KE_tet a b c d => [(id a, id b, id c, id d)]
+    | KE_prism a b c d e f => split_prism [id a; id b; id c; id d; id e; id f]
+    | KE_pyramid a b c d e => split_pyramid [id a; id b; id c; id d; id e]
+    end.
+
+  Definition capsule_elements (n ncap : nat) : list tet :=
+    let zn := Z.of_nat n in let zc := Z.of_nat ncap in
+    let js := map Z.of_nat (seq 0 n) in
+    flat_map (fun i => flat_map (fun j => flat_map (kelem_tets zn zc i j ((j + 1) mod zn)%Z) TetTables.capsule_cap) js)
+             (map Z.of_nat (seq 0 (ncap - 1)))
+    ++ flat_map (fun j => flat_map (kelem_tets zn zc 0 j ((j + 1) mod zn)%Z) TetTables.capsule_barrel) js.
+
+  Definition capsule_mesh (radius height : F) (circ ring : list (F * F)) : mesh :=
+    let vs := capsule_verts radius height circ ring in
+    (vs, capsule_elements (length ring) (length circ),
+     map (fun idx => if Nat.ltb idx 2 then radius else zero) (seq 0 (length vs))).   (* potentials[:2] = radius *)
+End Capsule.
